@@ -263,7 +263,7 @@ def parts(tier):
     classes = {k: v for k, v in W.OP_CLASSES.items()}
     return [
         Part("histories", run, strategy=lambda t: W.program(max_steps=mx, always=("construct", "construct", "view", "write", "derive")),
-             examples=(2500, 160000), shards=(8, 16), floors={"ragged_inputs": 0.05}),
+             examples=(2500, 48000), shards=(8, 16), floors={"ragged_inputs": 0.05}),
         Part("direct", run_direct, strategy=lambda t: direct_case(t), examples=(1500, 40000), shards=(2, 16),
              floors={"rejected": 0.1, "empty_table": 0.05}),
     ]
